@@ -94,8 +94,9 @@ class Hist:
     runs that replacement with exactly the arguments of the call; after the reset the original.  `tags[i]` names the
     situation of a call step so that a recorded defect can be matched narrowly."""
 
-    def __init__(self, g, u, sig, rng, forms_wanted=None, phases=None):
+    def __init__(self, g, u, sig, rng, forms_wanted=None, phases=None, focus_rules=False):
         self.g, self.u, self.sig, self.rng = g, u, sig, rng
+        self.focus_rules = focus_rules
         self.steps, self.expect, self.tags = [], [], []
         self.forms = list(g.FORMS_METHOD if sig.recv is not None else g.FORMS_FUNC)
         self.want = list(forms_wanted or [])
@@ -184,23 +185,42 @@ class Hist:
         self.mocked.add(b)
         self.foreign_reset = False
 
+    def ptoks(self):
+        return [self.g.gen_value(t, self.rng) for t in self.sig.params]
+
+    def vary(self, base, prefer_ptr=True):
+        """a copy of the per-parameter token groups with some parameters regenerated — one parameter at a time is varied
+        while the others keep their values (pointer parameters preferably: same slot, different pointee)"""
+        rng = self.rng
+        idx = [j for j, t in enumerate(self.sig.params) if t.kind == 'ptr'] if prefer_ptr else []
+        if not idx or rng.below(4) == 0:
+            idx = [rng.below(len(self.sig.params))]
+        out = list(base)
+        for j in idx:
+            for _ in range(8):
+                out[j] = self.g.gen_value(self.sig.params[j], rng)
+                if out[j] != base[j] and out[j] != ['nil']:
+                    break
+        return out
+
     def rules(self, b):
         """conditional rules on the active stub, then calls that match / do not match / re-use the argument objects"""
         rng = self.rng
+        join = lambda groups: ','.join(sum(groups, [])) or '-'
+        base = self.ptoks()
+        cands = [base] + [self.vary(base) for _ in range(1 + rng.below(2))]
         conds = []
-        for _ in range(1 + rng.below(2)):
-            cond, res = self.toks(self.sig.params), self.toks(self.sig.results)
-            if cond in [c for c, _ in conds]:
+        for c in cands:
+            cond, res = join(c), self.toks(self.sig.results)
+            if cond in [x for x, _ in conds]:
                 continue
             kept = 'h' if rng.below(3) == 0 else ''
             self.simple(f'W{kept} {b} {cond} {res}')
             conds.append((cond, res))
             self.active = ('stub', self.active[1], b, list(conds))
-        seq = [conds[0][0], None, conds[-1][0], None, conds[0][0]]
+        seq = [conds[0][0], join(self.vary(base)), conds[-1][0], conds[0][0], join(self.vary(base)), self.toks(self.sig.params)]
         for i, c in enumerate(seq):
-            if c is None:
-                c = self.toks(self.sig.params)
-            self.call(args=c, reuse=(i > 0 and rng.below(3) != 0))
+            self.call(args=c, reuse=(i > 0 and rng.below(4) != 0))
 
     def drop(self, b):
         self.simple(f'D {b}')
@@ -211,9 +231,18 @@ class Hist:
     def phase(self):
         rng = self.rng
         b = rng.below(2)
-        self.mock(b)
+        if self.focus_rules and not self.has_when.get(b):
+            res = self.toks(self.sig.results)
+            self.simple(f'R {b} {res}')
+            self.has_when[b], self.handle[b] = True, True
+            self.active = ('stub', res, b, [])
+            self.mocked.add(b)
+            self.foreign_reset = False
+            self.rules(b)
+        else:
+            self.mock(b)
         self.calls()
-        for _ in range(2):                      # re-mock through the same builder/mocker without a reset in between
+        for _ in range(0 if self.focus_rules else 2):                      # re-mock through the same builder/mocker without a reset in between
             if rng.below(3) == 0:
                 self.mock(b)
                 self.calls(1, 2)
@@ -487,6 +516,11 @@ def make_ops(g, u, sigs, rng, tier, only_sig=None):
             want = h.want
             lines.append(h.line())
             meta.append(('hist', s, h))
+        if s.whenable():
+            for j in range(max(1, sz['lines_per_sig'] // 2)):
+                h = Hist(g, u, s, r, phases=1, focus_rules=True)
+                lines.append(h.line())
+                meta.append(('hist', s, h))
     pl, lanes = gen_patch_lines(rng.fork('patch'), sz['patch_lines'])
     for l, lane in zip(pl, lanes):
         lines.append(l)
